@@ -41,6 +41,20 @@ of the union, of each structure member (`bytes(u.h)`) and of the outer structure
 through the forwarded attributes must decode them.  The same histories go to the Lean model (shapes without a nested union).  Shapes
 stay outside F9F10 (the dump member covers the union; a covering byte array is put in front otherwise), F44 and F56 (the anonymous
 unions have scalar / array members only, no union directly in a union), F49 (arrays are assigned as a whole).
+
+Input kinds and call forms (harness/v9_c11.py, own PRNG streams): two families of unions - (1) the FIRST member leaves padding / spare
+bits that another member covers (aligned structure with a gap or tail padding, bit-field structure with spare bits in its storage
+unit, smaller nested union, short char array, anonymous structure, array of structures; a covering byte / word array next to it),
+(2) the first member is char / char[n] with the other members as large, smaller, larger or absent - x byte order spelled < > ! = @ x
+packed / aligned x interpreted / compiled x member types inline / named / typedef x `union U` / `typedef union` x load / two loads /
+loadfile.  The union's bytes are handed over as bytes, a bytes subclass, bytearray, memoryview, memoryview slices of a larger bytes /
+bytearray, memoryview(array), BytesIO, BufferedReader, a real file (buffered and unbuffered), a bare read-seek-tell object (streams
+positioned inside larger data) through U(x), U.read, U.reads, U._read, cs.read('U', x), U[1](x), U[2](y + x) and as the member of a
+structure W(x).u: every member == textbook parse (refimpl) of its type from the bytes, dumps() == the bytes at data-carrying bits,
+bytes(u) == dumps(), streams advance by exactly the size; one assignment on a quarter of the objects (reference buffer with the
+member's bytes replaced).  Inputs of another length: longer buffers (tail ignored) and k < len(U) bytes (k = the first member's size -
+`char t[n]` handed exactly n bytes -, the largest member, len(U) - 1): success with the reference values when only tail padding is
+missing, no union object otherwise.  Plain shapes also go to the Lean model.
 """
 from __future__ import annotations
 
@@ -195,7 +209,17 @@ def run(env) -> Result:
                 "named member, named fields, fields of other members, whole member from fresh bytes, u.h = u.h); after parsing and after every "
                 "step: each member == textbook parse of its type from the reference buffer, dumps / bytes(u.h) / outer dumps == reference bytes "
                 "at data-carrying bits, forwarded reads decode the reference bytes, len(U) and consumption == largest member (aligned: rounded up). "
-                "distinct = (definition, config, contents, history prefix); non-trivial = history of >= 1 assignment")
+                "Input kinds and call forms: unions whose first member leaves padding / spare bits another member covers (aligned gap / tail "
+                "padded struct, bit-field struct, smaller nested union, short char array, anonymous struct, array of structs) and unions led by "
+                "char / char[n] (others equal / smaller / larger / absent) x endian spelled < > ! = @ x {packed, aligned} x {interpreted, compiled} "
+                "x {inline, named, typedef} x {load, two loads, loadfile}, parsed from {bytes, bytes subclass, bytearray, memoryview, memoryview "
+                "slice of bytes / bytearray, memoryview(array), BytesIO, BufferedReader, real file buffered / unbuffered, bare stream} through "
+                "{U(x), U.read, U.reads, U._read, cs.read, U[1](x), U[2](y+x), W(x).u}: each member == refimpl parse of its type from the bytes, "
+                "dumps == bytes at data bits, bytes(u) == dumps, stream advance == size, one assignment on 1/4 of the objects; longer input "
+                "(tail ignored) and short input of k bytes (first member's size, largest member, len(U)-1): reference values if only tail "
+                "padding is missing, otherwise no union may be returned. "
+                "distinct = (definition, config, contents, history prefix / call form, input kind); non-trivial = history of >= 1 assignment, "
+                "every entry-point case")
     dc = impl.dc()
     rnd = mkrng(env["seed"], "c11")
     rnd_place = mkrng(env["seed"], "c11-placement")     # own stream: the histories below stay what they were
@@ -438,6 +462,10 @@ def run(env) -> Result:
     #      own PRNG stream, the model lines join the batch below
     from .. import v8_c11
     v8_c11.run(env, res, viol, mkrng(env["seed"], "c11-anon-below-named"), dc, lines, metas)
+
+    # ---- input kinds and call forms: every public way of handing a union its bytes (harness/v9_c11.py); own PRNG streams
+    from .. import v9_c11
+    v9_c11.run(env, res, viol, dc, lines, metas)
 
     answers = run_driver(lines) if env["driver_ok"] else [None] * len(lines)
     for (cd, buf, vals, dump), ans in zip(metas, answers):
